@@ -102,9 +102,9 @@ func DateTimeText(fsp, y, mo, d, h, mi, s, micro int) []byte {
 	return AppendFspText(b, fsp, micro)
 }
 
-// temporalFrac encodes the fraction of the *2 types: (fsp+1)/2 bytes, big
-// endian, holding micro scaled to 2, 4 or 6 decimal digits (an odd fsp stores
-// one more digit than it prints, i.e. the printed digits times ten).
+// temporalFracUnits gives the stored fraction of the *2 types: (fsp+1)/2 bytes
+// (written big endian) holding micro scaled to 2, 4 or 6 decimal digits (an odd
+// fsp stores one more digit than it prints, i.e. the printed digits times ten).
 func temporalFracUnits(fsp, micro int) (units int, nbytes int) {
 	nbytes = (fsp + 1) / 2
 	switch nbytes {
